@@ -38,24 +38,19 @@ theorem seq_same_mutations (l1 l2 : List Nat) (e e1 e2 : Eng) (w w1 w2 : World) 
   conv => rhs; rw [run_trace_ends h1]
   simp only [mutating_append, mutating_state, List.append_nil]
 
-/- **two segments = the concatenated program**, full statement: for all programs, on every back end,
-
-    run [p1, p2] = ok (ea, _, ta) → run [p1 ++ p2] = ok (eb, _, tb) → ta = tb ∧ …
-
-   It is FALSE on the bosonic back end, which re-initialises the simulator for every segment (known
-   finding `bosonic-segment-reinit`, `concat_bosonic_counterexample` below).  Since the engine hands the
-   latest measured value of each subsystem over to the next segment (SF commit 1cfe20c) no hypothesis
-   about the hand-over is needed any more; the remaining hypotheses besides "not bosonic" are structural
-   facts true of every constructible pair of programs. -/
-
-/-- **two segments = the concatenated program** (Fock and Gaussian engines; all programs, all engine
-histories, feed-forward across the segment boundary included): same call trace — including the closing
-`state` query — same position in the outcome stream, same final register.  Hypotheses: `p12` is the
-concatenation (`hc hn hir hr`), `p1`/`p2` are different objects, `p1` and `p12` start with the same
-stored values and free-parameter bindings (e.g. never run), the compiled circuits read only subsystems
-that exist in `p1`'s final register, and `p2`'s register extends it. -/
-theorem concat_compositional_partial {e : Eng} {w : World} {i1 i2 i12 : Nat} {circ1 circ2 : List Cmd}
-    (hbk : e.bk ≠ .bosonic)
+/-- **two segments = the concatenated program**, at full strength: on every back end, for all programs —
+feed-forward across the segment boundary included — and every engine history, `run [p1, p2]` and
+`run [p1 ++ p2]` make the same call trace (including the closing `state` query), end at the same
+position of the outcome stream and with the same final register.  (Holds since SF commits 1cfe20c —
+per-subsystem hand-over — and the bosonic continuation fix; before them the statement needed the
+hypotheses `HandOverOK` and "not bosonic".)  Hypotheses, all structural facts true of every constructible
+pair of programs: `p12` is the concatenation (`hc hn hir hr`), `p1`/`p2` are different objects, `p1` and
+`p12` start with the same stored values and free-parameter bindings (e.g. never run), the compiled
+circuits read only subsystems that exist in `p1`'s final register, and `p2`'s register extends it;
+on the bosonic engine the first program is not empty unless a computation is already under way
+(an empty bosonic first program is initialised with the *second* program's mode count). -/
+theorem concat_compositional {e : Eng} {w : World} {i1 i2 i12 : Nat} {circ1 circ2 : List Cmd}
+    (hbk : e.bk = .bosonic → e.contd = true ∨ circ1 ≠ [])
     (hc : (progs i12).circuit = (progs i1).circuit ++ (progs i2).circuit)
     (hn : (progs i12).initN = (progs i1).initN)
     (hir : (progs i12).initRegs = (progs i1).initRegs)
@@ -168,7 +163,7 @@ theorem decompose_fresh (h : Heap) (a : Nat) (t : Tmpl) :
     (∀ c ∈ (gateDecomposeH h a t).2, h.ops.length ≤ c.1) :=
   gateDecomposeH_fresh h a t
 
-/-! ### known finding: where the full concatenation statement still fails -/
+/-! ### the inputs on which the concatenation statement used to fail -/
 
 def gaussianCp : Compiler :=
   { name := "gaussian", prims := ["MeasureHomodyne", "Dgate", "Rgate", "Sgate", "BSgate"],
@@ -211,17 +206,15 @@ def bosProgs : Nat → Prog
       [{ cls := "Dgate", pars := [.num ⟨1/4, 0⟩, .num {}], regs := [2] },
        { cls := "Rgate", pars := [.num ⟨1/2, 0⟩], regs := [1] }] }
 
-/-- bosonic back end: the second segment starts with another `begin_circuit`, a state-changing
-call the concatenated program does not make (it wipes the state prepared by the first segment). -/
-theorem concat_bosonic_counterexample :
-    (run gaussianCp bosProgs (fun _ => []) [] (fresh .bosonic []) emptyWorld [0, 1]).toOption.map
-        (fun r => mutating r.2.2) ≠
-    (run gaussianCp bosProgs (fun _ => []) [] (fresh .bosonic []) emptyWorld [2]).toOption.map
-        (fun r => mutating r.2.2) ∧
-    (run gaussianCp bosProgs (fun _ => []) [] (fresh .gaussian []) emptyWorld [0, 1]).toOption.map
-        (fun r => mutating r.2.2) =
-    (run gaussianCp bosProgs (fun _ => []) [] (fresh .gaussian []) emptyWorld [2]).toOption.map
-        (fun r => mutating r.2.2) := by
+/-- bosonic engine (the input on which every segment used to re-initialise the simulator): the two
+segments now make the calls of the concatenated program — one `begin_circuit` from the engine, one from
+`init_circuit` of the first program, then the gates — and a non-Gaussian preparation in the second
+segment is refused in both … -/
+example :
+    (run gaussianCp bosProgs (fun _ => []) [] (fresh .bosonic []) emptyWorld [0, 1]).toOption.map (·.2.2) =
+    (run gaussianCp bosProgs (fun _ => []) [] (fresh .bosonic []) emptyWorld [2]).toOption.map (·.2.2) ∧
+    ((run gaussianCp bosProgs (fun _ => []) [] (fresh .bosonic []) emptyWorld [0, 1]).toOption.map
+        fun r => r.2.2.map (·.name)) = some ["begin_circuit", "begin_circuit", "displacement", "rotation", "state"] := by
   decide +kernel
 
 /-! ### non-vacuity -/
